@@ -262,9 +262,10 @@ def _build_string_literal(d):
     return (lambda: P._parse_string_literal(d["literal"])), {"literal": d["literal"]}
 
 
-def _visitor(name, gen_text):
+def _visitor(name, gen_text, first=()):
     def gen(rng, i):
-        return {"text": gen_text(rng)}
+        # the listed texts first (index-driven), then random ones
+        return {"text": first[i] if i < len(first) else gen_text(rng)}
 
     def build(d):
         from pydsdl import _parser as P
@@ -379,6 +380,8 @@ def install(reg):
     for q, c in sorted(reg.contracts.items()):
         if not ({"C13", "C04"} & set(c.props)) or not c.verify:
             continue
+        if q.endswith("_operator.attribute"):
+            continue  # install_attribute()
         if q.startswith(E.EX + "_operator."):
             add_wrapper(q)
         elif q.endswith("Rational.__init__"):
@@ -391,10 +394,12 @@ def install(reg):
             continue
         elif q.startswith(E.EX) and q.split(".")[-2] in _CLASS_KIND:
             add_method(q)
-    NATIVE.add(E.PARSER + "_parse_string_literal", _gen_string_literal, _build_string_literal)
-    _visitor("visit_literal_integer", _gen_int_text)
-    _visitor("visit_literal_integer_decimal", _gen_int_text)
-    _visitor("visit_literal_real", _gen_real_text)
+    NATIVE.add(E.PARSER + "_parse_string_literal",
+               lambda rng, i: {"literal": E._STRING_TEXTS[i]} if i < len(E._STRING_TEXTS) else _gen_string_literal(rng, i),
+               _build_string_literal)
+    _visitor("visit_literal_integer", _gen_int_text, E._INT_TEXTS)
+    _visitor("visit_literal_integer_decimal", _gen_int_text, E._DEC_TEXTS)
+    _visitor("visit_literal_real", _gen_real_text, E._REAL_TEXTS)
     _visitor("visit_literal_string_single_quoted", lambda rng: _gen_string_literal(rng, 0)["literal"])
     _visitor("visit_literal_string_double_quoted", lambda rng: _gen_string_literal(rng, 0)["literal"])
     NATIVE.add(E.PARSER + "_unwrap_array_capacity", _gen_capacity, _build_capacity)
@@ -539,3 +544,48 @@ def install_types(reg):
                _build_array_visitor("visit_type_array_variable_inclusive", 9, 6))
     NATIVE.add(E.PTP + "visit_type_array_variable_exclusive", _gen_array_visitor,
                _build_array_visitor("visit_type_array_variable_exclusive", 9, 6))
+
+
+# ---- operator chains
+def _gen_chain(rng, i):
+    n = [0, 1, 2, 3, 4][i % 5]
+    return {"first": _gen_rat(rng), "ops": [rng.choice(["subtract", "divide", "power", "add", "less"]) for _ in range(n)],
+            "rights": [_small_exponent(rng, _gen_rat(rng)) for _ in range(n)]}
+
+
+def _build_chain(d):
+    from pydsdl import _parser as P, _expression as X
+
+    first = _mk(d["first"])
+    chain = [(None, getattr(X, op), None, _mk(r)) for op, r in zip(d["ops"], d["rights"])]
+    ch = (first, chain)
+    return (lambda: P._ParseTreeProcessor._visit_binary_operator_chain(None, None, ch)), {"_n": None, "children": ch}
+
+
+def install_chain():
+    NATIVE.add(E.PTP + "_visit_binary_operator_chain", _gen_chain, _build_chain)
+
+
+# ---- the attribute operator
+_ATTR_ALL = ["min", "max", "count", "_bit_length_", "_extent_", "K", "foo", ""]
+
+
+def _gen_attribute(rng, i):
+    vals = EXOTIC_ALL + [{"k": "comp", "t": t} for t in ("service", "struct", "delimited")]
+    if i < len(vals) * len(_ATTR_ALL):
+        v, n = vals[i % len(vals)], _ATTR_ALL[i // len(vals)]
+    else:
+        v, n = rng.choice(vals + [_gen_any(rng)]), rng.choice(_ATTR_ALL)
+    return {"value": v, "name": n, "as_string": i % 2 == 0}
+
+
+def _build_attribute(d):
+    from pydsdl import _expression as X
+
+    v = _mk_composite(d["value"]["t"]) if d["value"]["k"] == "comp" else _mk(d["value"])
+    name = X.String(d["name"]) if d["as_string"] else d["name"]
+    return (lambda: X.attribute(v, name)), {"value": v, "name": name}
+
+
+def install_attribute():
+    NATIVE.add(E.OPMOD + "attribute", _gen_attribute, _build_attribute, outside_pre_only_raises=ONLY_INVALID_DEFINITION)
